@@ -3,6 +3,9 @@
 re-validates it in a scratch worktree (suite passes with the change, demo fails with it,
 passes without it) and runs the property's check against it on /repo (apply, check, revert).
 usage: seed_import.py <srcdir> [<property override>]"""
+import subprocess as _sp
+if _sp.run(['git','-C','/repo','status','--porcelain'],capture_output=True,text=True).stdout.strip():
+    raise SystemExit('refusing: /repo has uncommitted changes (commit them first; this tool runs git checkout -- .)')
 import json, os, shutil, subprocess, sys, tempfile
 ENV = dict(os.environ, GOFLAGS='-mod=mod', GOPROXY='off', GOSUMDB='off', GOTOOLCHAIN='local')
 def sh(cmd, cwd=None, timeout=1500):
